@@ -5,7 +5,10 @@ package storage
 import (
 	"context"
 	"fmt"
+	"log/slog"
 	"os"
+	"runtime"
+	"sort"
 	"strconv"
 	"strings"
 	"sync"
@@ -82,6 +85,22 @@ func (s *c05sS3) durableEnd() int64 { s.mu.Lock(); defer s.mu.Unlock(); return s
 func TestVF_C01_Stress(t *testing.T) { c01Stress(t, "C01") }
 func TestVF_C02_Stress(t *testing.T) { c01Stress(t, "C02") }
 func TestVF_C05_Stress(t *testing.T) { c01Stress(t, "C05") }
+func TestVF_C03_Stress(t *testing.T) { c01Stress(t, "C03") }
+
+// c01SlowSink is a log sink that takes its time: every record yields the processor a few
+// dozen times, which widens any window the code leaves open around a log call.
+type c01SlowSink struct{ n atomic.Int64 }
+
+func (h *c01SlowSink) Enabled(context.Context, slog.Level) bool { return true }
+func (h *c01SlowSink) Handle(context.Context, slog.Record) error {
+	h.n.Add(1)
+	for i := 0; i < 40; i++ {
+		runtime.Gosched()
+	}
+	return nil
+}
+func (h *c01SlowSink) WithAttrs([]slog.Attr) slog.Handler { return h }
+func (h *c01SlowSink) WithGroup(string) slog.Handler      { return h }
 
 func c01Stress(t *testing.T, focus string) {
 	st := vfkit.NewStats(focus, "stress")
@@ -105,21 +124,28 @@ func c01Stress(t *testing.T, focus string) {
 		producers := 3 + int(next()%10)
 		failEvery := []int64{0, 0, 97, 13}[next()%4]
 		bufMax := []int{1 << 30, 1 << 30, 400}[next()%3]
+		slowLog := next()%2 == 0
+		var logger *slog.Logger
+		if slowLog {
+			logger = slog.New(&c01SlowSink{})
+		}
 		obj := vfkit.NewObjStore()
 		s3 := &c05sS3{vfS3: newVfS3(obj), seg: map[string]int64{}, idx: map[string]bool{}}
 		if failEvery > 0 {
 			s3.fail = func(n int64) bool { return n%failEvery == 0 }
 		}
-		var violation, violation01, violation02 atomic.Value
+		var violation, violation01, violation02, violation03 atomic.Value
+		owner := map[int64]int{} // base -> producer
 		var stop atomic.Bool
 		var rangesMu sync.Mutex
 		ranges := map[int64]int64{} // base -> last of every successful append
-		var acked atomic.Int64
+		var acked, appendErrs atomic.Int64
 		var publishes, emptyPublishes atomic.Int64
 		var lastPub int64
 		plog := NewPartitionLog("default", "orders", 0, 0, s3, nil, PartitionLogConfig{
 			Buffer:  WriteBufferConfig{MaxBytes: bufMax},
 			Segment: SegmentWriterConfig{IndexIntervalMessages: 1},
+			Logger:  logger,
 		}, func(_ context.Context, a *SegmentArtifact) {
 			publishes.Add(1)
 			if len(a.SegmentBytes) == 0 {
@@ -128,12 +154,12 @@ func c01Stress(t *testing.T, focus string) {
 			pub := a.LastOffset + 1
 			durable := s3.durableEnd()
 			if pub > durable {
-				if violation.CompareAndSwap(nil, fmt.Sprintf("published end offset %d but complete S3 segments only reach end offset %d (publish of a flush that drained nothing: %v)", pub, durable, len(a.SegmentBytes) == 0)) {
+				if violation.CompareAndSwap(nil, fmt.Sprintf("published end offset %d but complete S3 segments only reach end offset %d (publish of a flush that drained nothing: %v)", pub, durable, len(a.SegmentBytes) == 0)) && focus == "C05" {
 					stop.Store(true)
 				}
 			}
 			if pub < atomic.LoadInt64(&lastPub) {
-				if violation.CompareAndSwap(nil, fmt.Sprintf("published end offset went down %d -> %d", atomic.LoadInt64(&lastPub), pub)) {
+				if violation.CompareAndSwap(nil, fmt.Sprintf("published end offset went down %d -> %d", atomic.LoadInt64(&lastPub), pub)) && focus == "C05" {
 					stop.Store(true)
 				}
 			}
@@ -158,24 +184,32 @@ func c01Stress(t *testing.T, focus string) {
 					}
 					res, err := plog.AppendBatch(ctx, b)
 					if err != nil {
+						appendErrs.Add(1)
 						continue // threshold flush failed (injected): allowed, the batch is kept or reported failed
 					}
 					rangesMu.Lock()
 					if last, dup := ranges[res.BaseOffset]; dup {
 						violation02.CompareAndSwap(nil, fmt.Sprintf("two appends were both assigned base offset %d (ranges %d..%d and %d..%d)", res.BaseOffset, res.BaseOffset, last, res.BaseOffset, res.LastOffset))
-						stop.Store(true)
+						if focus == "C02" {
+							stop.Store(true)
+						}
 					}
 					ranges[res.BaseOffset] = res.LastOffset
+					owner[res.BaseOffset] = p
 					rangesMu.Unlock()
 					if res.LastOffset-res.BaseOffset != int64(len(rs)-1) {
 						violation02.CompareAndSwap(nil, fmt.Sprintf("a batch of %d records was assigned offsets %d..%d", len(rs), res.BaseOffset, res.LastOffset))
-						stop.Store(true)
+						if focus == "C02" {
+							stop.Store(true)
+						}
 					}
 					if err := plog.Flush(ctx); err == nil {
 						acked.Add(1)
 						if d := s3.durableEnd(); res.LastOffset >= d {
 							violation01.CompareAndSwap(nil, fmt.Sprintf("Append and Flush returned nil for offsets %d..%d but complete S3 segments only reach end offset %d", res.BaseOffset, res.LastOffset, d))
-							stop.Store(true)
+							if focus == "C01" {
+								stop.Store(true)
+							}
 						}
 					}
 				}
@@ -190,36 +224,77 @@ func c01Stress(t *testing.T, focus string) {
 		if failEvery > 0 {
 			st.Class("with-upload-failures")
 		}
+		if slowLog {
+			st.Class("slow-log-sink")
+		}
 		if (focus == "C05" && publishes.Load() > 0 && emptyPublishes.Load() > 0) || (focus != "C05" && acked.Load() > 0 && producers >= 2) {
 			if st.NonTrivial(r, producers, failEvery, bufMax) {
 				st.Sample(map[string]any{"producers": producers, "ops_per_producer": per, "fail_every": failEvery, "buffer_max": bufMax,
 					"publishes": publishes.Load(), "publishes_of_empty_flush": emptyPublishes.Load(), "durable_end": s3.durableEnd()})
 			}
 		}
-		// C02: the assigned ranges tile [0, next) without overlap
+		// C02: the offset ranges of successful appends never overlap; when no append failed
+		// (a failed append keeps its offsets but reports no range) they tile the log from 0
 		if violation02.Load() == nil {
-			next := int64(0)
-			for next < int64(1)<<40 {
-				last, ok := ranges[next]
-				if !ok {
+			bases := make([]int64, 0, len(ranges))
+			for b := range ranges {
+				bases = append(bases, b)
+			}
+			sort.Slice(bases, func(i, j int) bool { return bases[i] < bases[j] })
+			for i := 1; i < len(bases); i++ {
+				if ranges[bases[i-1]] >= bases[i] {
+					violation02.CompareAndSwap(nil, fmt.Sprintf("appends were assigned overlapping offset ranges %d..%d and %d..%d", bases[i-1], ranges[bases[i-1]], bases[i], ranges[bases[i]]))
 					break
 				}
-				next = last + 1
-			}
-			covered := 0
-			for range ranges {
-				covered++
-			}
-			n := 0
-			for b := int64(0); b < next; {
-				n++
-				b = ranges[b] + 1
-			}
-			if n != covered {
-				violation02.CompareAndSwap(nil, fmt.Sprintf("assigned offset ranges do not tile the log: %d ranges, %d reachable contiguously from 0 (end %d)", covered, n, next))
+				if appendErrs.Load() == 0 && ranges[bases[i-1]]+1 != bases[i] {
+					violation02.CompareAndSwap(nil, fmt.Sprintf("gap in the assigned offsets between %d..%d and %d..%d although no append failed", bases[i-1], ranges[bases[i-1]], bases[i], ranges[bases[i]]))
+					break
+				}
 			}
 		}
-		vs := map[string]any{"C05": violation.Load(), "C01": violation01.Load(), "C02": violation02.Load()}
+		// C03: after the run every recorded batch is read back at its base offset: the first
+		// batch of the answer that reaches the offset must start exactly there and carry the
+		// producer's key
+		if focus == "C03" && !stop.Load() {
+			ctx := context.Background()
+			for try := 0; try < 20; try++ {
+				if plog.Flush(ctx) == nil {
+					break
+				}
+			}
+			checked := 0
+			for base, last := range ranges {
+				checked++
+				data, err := plog.Read(ctx, base, 4096)
+				if err != nil {
+					if last < s3.durableEnd() {
+						violation03.CompareAndSwap(nil, fmt.Sprintf("read at offset %d (stored, below the end %d of the complete segments) failed: %v", base, s3.durableEnd(), err))
+					}
+					continue
+				}
+				bs, _ := vfkit.DecodeBatchesLenient(data)
+				ok := false
+				for _, b := range bs {
+					if b.BaseOffset+int64(b.LastOffsetDelta) < base {
+						continue
+					}
+					ok = b.BaseOffset == base && len(b.Records) > 0 && strings.HasPrefix(string(b.Records[0].Key), fmt.Sprintf("p%d/", owner[base]))
+					if !ok {
+						violation03.CompareAndSwap(nil, fmt.Sprintf("read at offset %d (batch %d..%d of producer %d): the first batch reaching the offset is %d..%d with key %q", base, base, last, owner[base], b.BaseOffset, b.BaseOffset+int64(b.LastOffsetDelta), func() string {
+							if len(b.Records) > 0 {
+								return string(b.Records[0].Key)
+							}
+							return ""
+						}()))
+					}
+					break
+				}
+			}
+		}
+		if os.Getenv("VF_DEBUG") != "" {
+			t.Logf("round %d producers=%d failEvery=%d bufMax=%d slow=%v s3ops=%d appendErrs=%d acked=%d ranges=%d emptyPub=%d", r, producers, failEvery, bufMax, slowLog, s3.n.Load(), appendErrs.Load(), acked.Load(), len(ranges), emptyPublishes.Load())
+		}
+		vs := map[string]any{"C05": violation.Load(), "C01": violation01.Load(), "C02": violation02.Load(), "C03": violation03.Load()}
 		if v := vs[focus]; v != nil {
 			t.Fatalf("%s violated (free-running producers=%d failEvery=%d bufMax=%d round=%d, %d acks): %s", focus, producers, failEvery, bufMax, r, acked.Load(), v)
 		}
